@@ -1,0 +1,103 @@
+//! Call recorder for conformance checking (compiled only with `--cfg stats_ci_verif`).
+//!
+//! When the environment variable `STATS_CI_TRACE` names a file, every call of the non-generic
+//! cores of the interval producers appends one line describing its arguments and its outcome
+//! (floats as raw bits).  A sequential library has its linearisation point at the call's return;
+//! the error path is recorded as well.  Nothing here influences the computation.
+use std::io::Write;
+use std::sync::Mutex;
+
+use crate::{error::CIError, Confidence, Interval};
+
+lazy_static::lazy_static! {
+    /// recording is on only when the environment names a trace file
+    static ref ENABLED: bool = std::env::var("STATS_CI_TRACE").is_ok();
+    static ref SINK: Mutex<Option<std::fs::File>> = Mutex::new(
+        std::env::var("STATS_CI_TRACE").ok().and_then(|p| {
+            std::fs::OpenOptions::new().create(true).append(true).open(p).ok()
+        })
+    );
+}
+
+thread_local! {
+    static ACTIVE: std::cell::RefCell<Vec<&'static str>> = std::cell::RefCell::new(Vec::new());
+}
+
+/// Re-entrancy token: a hooked function calls itself once under the token, records the outcome of
+/// that inner call and returns it, so that the hook is a pure addition at the top of the function.
+pub(crate) struct Token(&'static str);
+impl Drop for Token {
+    fn drop(&mut self) {
+        ACTIVE.with(|a| a.borrow_mut().retain(|t| *t != self.0));
+    }
+}
+/// `Some(token)` on the outer entry of the hook `tag` in this thread, `None` on the inner one.
+pub(crate) fn enter(tag: &'static str) -> Option<Token> {
+    if !*ENABLED {
+        return None;
+    }
+    ACTIVE.with(|a| {
+        let mut a = a.borrow_mut();
+        if a.contains(&tag) {
+            None
+        } else {
+            a.push(tag);
+            Some(Token(tag))
+        }
+    })
+}
+
+fn conf_str(c: &Confidence) -> String {
+    let kind = match c {
+        Confidence::TwoSided(_) => "two",
+        Confidence::UpperOneSided(_) => "upper",
+        Confidence::LowerOneSided(_) => "lower",
+    };
+    format!("{} {:016x}", kind, c.level().to_bits())
+}
+
+fn err_str(e: &CIError) -> String {
+    let s = format!("{:?}", e);
+    let name: String = s.chars().take_while(|c| c.is_alphanumeric()).collect();
+    format!("err {}", name)
+}
+
+fn emit(line: String) {
+    if let Ok(mut guard) = SINK.lock() {
+        if let Some(f) = guard.as_mut() {
+            let _ = writeln!(f, "{:?} {}", std::thread::current().id(), line);
+        }
+    }
+}
+
+pub(crate) fn proportion(tag: &str, c: &Confidence, n: usize, k: usize, r: &Result<Interval<f64>, CIError>) {
+    let out = match r {
+        Ok(Interval::TwoSided(lo, hi)) => format!("ok two {:016x} {:016x}", lo.to_bits(), hi.to_bits()),
+        Ok(Interval::UpperOneSided(lo)) => format!("ok upper {:016x}", lo.to_bits()),
+        Ok(Interval::LowerOneSided(hi)) => format!("ok lower {:016x}", hi.to_bits()),
+        Err(e) => err_str(e),
+    };
+    emit(format!("{} {} {} {} -> {}", tag, conf_str(c), n, k, out));
+}
+
+pub(crate) fn quantile(c: &Confidence, n: usize, q: f64, r: &Result<Interval<usize>, CIError>) {
+    let out = match r {
+        Ok(Interval::TwoSided(lo, hi)) => format!("ok two {} {}", lo, hi),
+        Ok(Interval::UpperOneSided(lo)) => format!("ok upper {}", lo),
+        Ok(Interval::LowerOneSided(hi)) => format!("ok lower {}", hi),
+        Err(e) => err_str(e),
+    };
+    emit(format!("Q {} {} {:016x} -> {}", conf_str(c), n, q.to_bits(), out));
+}
+
+/// arithmetic-mean interval: the statistics it was computed from (as f64) and the bounds (as f64)
+pub(crate) fn mean(c: &Confidence, count: usize, mean: f64, std_dev: f64, bits: u32, r: &Result<(Option<f64>, Option<f64>), ()>) {
+    let out = match r {
+        Ok((Some(lo), Some(hi))) => format!("ok two {:016x} {:016x}", lo.to_bits(), hi.to_bits()),
+        Ok((Some(lo), None)) => format!("ok upper {:016x}", lo.to_bits()),
+        Ok((None, Some(hi))) => format!("ok lower {:016x}", hi.to_bits()),
+        Ok((None, None)) => "ok none".to_string(),
+        Err(()) => "err Error".to_string(),
+    };
+    emit(format!("M {} {} {:016x} {:016x} f{} -> {}", conf_str(c), count, mean.to_bits(), std_dev.to_bits(), bits, out));
+}
